@@ -64,6 +64,8 @@ QHost(st, q) == IF q <= 2 THEN 0 ELSE st.lk.server
 (* cached records that answer question q and still have more than half of their TTL *)
 Ka(st, q, t) ==
   {i \in Ids : Kind(i) = QKind(q) /\ Fresh(st, i, t) /\ (IF q <= 2 THEN TRUE ELSE (st.lk.server # 0 /\ HostOf(i) = st.lk.server))}
+  \* while the host is unknown the address questions are put to the instance name: an address record owned by that name answers them
+  \cup {i \in Ids : Kind(i) = "decoy" /\ Vocab[i].dq = q /\ q > 2 /\ st.lk.server = 0 /\ Fresh(st, i, t)}
 \* first query QU unless QM is forced, later ones QM (a forced type applies to the first query of a lookup)
 IsQU(st) == IF st.lk.forced = "QM" THEN FALSE ELSE st.lk.nq = 0
 Suppressed(st, q, t) == LET h == st.hist[q][QWho(st, q)] IN t - h.t <= 999 /\ h.ka \subseteq Ka(st, q, t)
@@ -80,7 +82,7 @@ Learn(k, ch, items, n, t) ==
   IF n > Len(items) THEN k
   ELSE LET it == items[n]
            i == it.id
-       IN IF it.ttl = 0 THEN Learn(k, ch, items, n + 1, t)
+       IN IF it.ttl = 0 \/ Kind(i) = "decoy" THEN Learn(k, ch, items, n + 1, t)       \* (decoy: says nothing about the service)
           ELSE IF Kind(i) \in {"a", "aaaa"}
                THEN Learn(IF k.server # 0 /\ HostOf(i) = k.server THEN [k EXCEPT !.addrs = @ \cup {i}, !.seen = @ \cup {i}] ELSE k,
                           ch, items, n + 1, t)
